@@ -430,6 +430,7 @@ type simPipeline struct {
 	reqCh  chan *pipeFuture
 	stopCh chan struct{}
 	closed bool
+	broken bool
 }
 
 type pipeFuture struct {
@@ -466,9 +467,18 @@ func (n *Net) newPipeline(t *SimTransport, id raft.ServerID, target raft.ServerA
 				return
 			}
 			f := simrt.Got(&s, (<-chan *pipeFuture)(p.reqCh))
+			deliver := func() bool {
+				var s2 simrt.Sel
+				return s2.Do("pipe-done", false, simrt.S((chan<- raft.AppendFuture)(p.doneCh), raft.AppendFuture(f)), simrt.R((<-chan struct{})(p.stopCh))) == 0
+			}
 			if broken {
+				// the connection is gone: everything behind the failure fails too, and the
+				// consumer is told (NetworkTransport's decoder does the same)
 				f.err = errClosed
 				close(f.done)
+				if !deliver() {
+					return
+				}
 				continue
 			}
 			kind := "AE"
@@ -479,13 +489,16 @@ func (n *Net) newPipeline(t *SimTransport, id raft.ServerID, target raft.ServerA
 			if err != nil {
 				f.err = err
 				broken = true
+				p.broken = true
 				close(f.done)
+				if !deliver() {
+					return
+				}
 				continue
 			}
 			*f.resp = *(r.(*raft.AppendEntriesResponse))
 			close(f.done)
-			var s2 simrt.Sel
-			if s2.Do("pipe-done", false, simrt.S((chan<- raft.AppendFuture)(p.doneCh), raft.AppendFuture(f)), simrt.R((<-chan struct{})(p.stopCh))) != 0 {
+			if !deliver() {
 				return
 			}
 		}
@@ -495,6 +508,9 @@ func (n *Net) newPipeline(t *SimTransport, id raft.ServerID, target raft.ServerA
 
 func (p *simPipeline) AppendEntries(args *raft.AppendEntriesRequest, resp *raft.AppendEntriesResponse) (raft.AppendFuture, error) {
 	p.t.inc.checkAlive()
+	if p.broken {
+		return nil, errClosed // writing to a broken connection fails
+	}
 	f := &pipeFuture{start: time.Now(), args: args, resp: resp, done: make(chan struct{})}
 	var s simrt.Sel
 	switch s.Do("pipe-send", false, simrt.S((chan<- *pipeFuture)(p.reqCh), f), simrt.R((<-chan struct{})(p.stopCh)), simrt.R(time.After(p.t.timeout))) {
